@@ -119,6 +119,7 @@ class ListV(AVal):
     head: AVal | None = None
     tail: tuple = ()
     tail_elem: AVal | None = None  # the `elem` these head/tail describe; a derived list with another elem invalidates them
+    born: tuple | None = None  # the abstract loops open when a concrete list was created by a display: appends in the same context stay concrete
     it: int | None = None  # identity of a one-shot iterator (iter(), generator expression, chain, map, zip, ...): consumed once per path
 
     def parts(self):
